@@ -26,7 +26,9 @@ CONSTANTS HeaderLines,       \* 10
 
 Forms      == {"sameLine", "nextLine", "block", "fileHeader", "repoPattern", "linterPattern"}
 Spellings  == {"fullId", "linterPrefix", "prefixStar", "upperCase", "mixedCase", "alias", "aliasUpper",
-               "aliasPrefix", "bare", "otherRule"}
+               "aliasPrefix", "bare", "otherRule", "listFirst", "listLast"}
+\* `ignore[nesting,srp]`: documented for same-line directives (how-to-ignore-violations.md, "Multiple Rules on Same Line")
+ListSpellings == {"listFirst", "listLast"}
 \* where the directive goes relative to the chosen target violation
 Placements == {"on", "before", "twoBefore", "after", "around", "aroundOther", "header", "body"}
 
@@ -40,7 +42,7 @@ ValidPlacement(f, p) ==
 VARIABLES form, spelling, placement, done
 vars == <<form, spelling, placement, done>>
 Init == form = "sameLine" /\ spelling = "fullId" /\ placement = "on" /\ done = FALSE
-Choose(f, s, p) == ~done /\ ValidPlacement(f, p) /\ form' = f /\ spelling' = s /\ placement' = p /\ done' = TRUE
+Choose(f, s, p) == ~done /\ ValidPlacement(f, p) /\ (s \in ListSpellings => f = "sameLine") /\ form' = f /\ spelling' = s /\ placement' = p /\ done' = TRUE
 Next == \E f \in Forms, s \in Spellings, p \in Placements : Choose(f, s, p)
 Spec == Init /\ [][Next]_vars
 Emit == done => PrintT(<<"CASE", ToJson([form |-> form, spelling |-> spelling, placement |-> placement])>>)
@@ -57,6 +59,8 @@ Names(d, v) ==
       [] d.spelling = "aliasPrefix"                            -> v.linter = d.tlinter /\ v.sub = d.tsub
       [] d.spelling = "bare"                                   -> TRUE
       [] d.spelling = "otherRule"                              -> v.linter = d.olinter /\ v.sub = d.osub
+      [] d.spelling \in ListSpellings -> \/ v.linter = d.tlinter /\ v.sub = d.tsub
+                                         \/ v.linter = d.olinter /\ v.sub = d.osub
 
 \* d.before: base line numbers before which one own-line directive was inserted (a sequence);
 \* d.at / d.endAt are line numbers in the file AFTER insertion
